@@ -20,7 +20,7 @@ func init() {
 			"(c) each required option left empty makes every reachable return carry a non-nil error; " +
 			"(d) the option-string front end's unquoted/array key sets equal the int-bool/[]string fields of RawConfig computed from the type, escapes are undone in the documented order before splitting; " +
 			"(e) processed values reach the dialer, the routers and the session (KeepAlive→net.Dialer.KeepAlive, Timeout→read deadlines, Singleplex, NumConn, Transport, MockDomainList).",
-		NotDecided: "equivalence of the two syntaxes on arbitrary strings (quoting inside values is a property of all inputs of two parsers); JSON decoding semantics of encoding/json; README prose that is not a value.",
+		NotDecided:  "equivalence of the two syntaxes on arbitrary strings (quoting inside values is a property of all inputs of two parsers); JSON decoding semantics of encoding/json; README prose that is not a value.",
 		Assumptions: []string{"the README/property-statement table compiled into the checker (rules_c20.go c20Rows) is the documented behaviour"},
 	})
 }
